@@ -33,8 +33,17 @@ pub fn entry_of(i: usize, size: usize) -> (Vec<u8>, Vec<u8>) {
     }
 }
 
-fn effective_budget(cfg: &SorterCfg) -> usize {
-    std::cmp::max(cfg.dump_threshold.unwrap_or(1 << 30), cfg.min_memory.unwrap_or(10 << 20))
+/// The effective budget is the configured threshold, or what the sorter itself says it uses when
+/// that is larger (its minimum) or when none was configured (its default): neither the minimum nor
+/// the default is named by the statement, so they are read from the sorter, not assumed.
+/// The budget the harness itself arranged (requested threshold and the hook-scaled minimum): used
+/// only to choose entry sizes that are small relative to it.
+fn nominal_budget(cfg: &SorterCfg) -> usize {
+    std::cmp::max(cfg.dump_threshold.unwrap_or(0), cfg.min_memory.unwrap_or(0))
+}
+
+fn effective_budget(cfg: &SorterCfg, st: &SorterState) -> usize {
+    std::cmp::max(cfg.dump_threshold.unwrap_or(0), st.dump_threshold)
 }
 
 pub struct Run {
@@ -44,6 +53,8 @@ pub struct Run {
     /// triggered a chunk creation
     pub volume_since_spill: usize,
     pub max_volume: usize,
+    /// inserts in which the buffered entries left memory
+    pub spills: u64,
 }
 
 /// Replays `sizes` on a fresh sorter, checking the invariants after every insert.
@@ -51,7 +62,7 @@ pub fn replay_inserts(cfg: &SorterCfg, sizes: &[usize]) -> Result<Run, String> {
     let creator = TrackedCreator::default();
     let stats = creator.stats.clone();
     let sorter = crate::sorter_util::builder_with(cfg, creator).build();
-    let mut run = Run { sorter, stats, volume_since_spill: 0, max_volume: 0 };
+    let mut run = Run { sorter, stats, volume_since_spill: 0, max_volume: 0, spills: 0 };
     for (i, &sz) in sizes.iter().enumerate() {
         step(cfg, &mut run, i, sz)?;
     }
@@ -59,12 +70,13 @@ pub fn replay_inserts(cfg: &SorterCfg, sizes: &[usize]) -> Result<Run, String> {
 }
 
 pub fn step(cfg: &SorterCfg, run: &mut Run, i: usize, sz: usize) -> Result<(), String> {
-    let t = effective_budget(cfg);
-    let bound = if cfg.allow_realloc { 2 * t } else { t };
-    let max_chunks = cfg.max_nb_chunks.unwrap_or(25).max(1) as i64;
     let (k, v) = entry_of(i, sz);
     let creates_before = run.stats.creates.get();
     let before: SorterState = run.sorter.verif_state();
+    let t = effective_budget(cfg, &before);
+    let bound = if cfg.allow_realloc { 2 * t } else { t };
+    // the default maximum is not named by the statement: the bound is checked for a configured one
+    let max_chunks = cfg.max_nb_chunks.map(|m| m.max(1) as i64);
     run.stats.high_water.set(run.stats.live.get());
     run.sorter.insert(&k, &v).map_err(|e| format!("insert #{i}: {e}"))?;
     let after: SorterState = run.sorter.verif_state();
@@ -86,16 +98,19 @@ pub fn step(cfg: &SorterCfg, run: &mut Run, i: usize, sz: usize) -> Result<(), S
     }
     run.max_volume = run.max_volume.max(after.entries_len);
     // 2. live chunks at every instant of this insert (high-water mark since the call started)
-    if run.stats.high_water.get() > max_chunks + 2 {
-        return Err(format!(
-            "during insert #{i}: {} chunks existed at the same time, bound max_nb_chunks + 2 = {}",
-            run.stats.high_water.get(),
-            max_chunks + 2
-        ));
+    if let Some(max_chunks) = max_chunks {
+        if run.stats.high_water.get() > max_chunks + 2 {
+            return Err(format!(
+                "during insert #{i}: {} chunks existed at the same time, bound max_nb_chunks + 2 = {}",
+                run.stats.high_water.get(),
+                max_chunks + 2
+            ));
+        }
     }
     // 3. every spill goes through the user-supplied creator: the sorter cannot hold more chunks
     //    than the creator's live ones, and the buffer cannot have been emptied (only the new entry
-    //    left in it) in a call that created no chunk
+    //    left in it) more often than the creator was asked for a chunk (when it is asked — in the
+    //    spilling call or ahead of it — is not the statement's business)
     if after.chunks_len as i64 > run.stats.live.get() {
         return Err(format!(
             "after insert #{i}: the sorter holds {} chunks but only {} chunks made by the creator are alive",
@@ -103,14 +118,22 @@ pub fn step(cfg: &SorterCfg, run: &mut Run, i: usize, sz: usize) -> Result<(), S
             run.stats.live.get()
         ));
     }
-    if before.entries_len > 0 && after.entries_len == sz && after.bounds_count <= 1 && created == 0 {
-        return Err(format!("insert #{i}: the buffered entries left memory without any call to the chunk creator"));
+    let _ = created;
+    if before.entries_len > 0 && after.entries_len == sz && after.bounds_count <= 1 {
+        run.spills += 1;
+        if run.stats.creates.get() < run.spills {
+            return Err(format!(
+                "insert #{i}: the buffered entries left memory for the {}th time but the chunk creator was only called {} times",
+                run.spills,
+                run.stats.creates.get()
+            ));
+        }
     }
     Ok(())
 }
 
 pub fn finish(cfg: &SorterCfg, run: Run, n_inserted: usize) -> Result<(), String> {
-    let max_chunks = cfg.max_nb_chunks.unwrap_or(25).max(1) as i64;
+    let max_chunks = cfg.max_nb_chunks.map(|m| m.max(1) as i64).unwrap_or(i64::MAX - 2);
     let Run { sorter, stats, .. } = run;
     stats.high_water.set(stats.live.get());
     let mut it = sorter.into_stream_merger_iter().map_err(|e| format!("finish: {e}"))?;
@@ -208,7 +231,7 @@ fn bfs(cfg: &SorterCfg, alphabet: &[usize], max_states: usize, acc: &mut Acc) ->
     (hist.len(), transitions, closed)
 }
 
-/// hook-free run at the real 10 MiB minimum: ~100 MiB in 2.5 MiB entries
+/// hook-free run at the shipped minimum (the requested 4096 bytes are below it): 100 MiB in 2.5 MiB entries
 fn real_threshold(allow_realloc: bool, max_nb_chunks: usize) -> Result<(usize, u64), String> {
     let cfg = SorterCfg {
         min_memory: None,
@@ -273,7 +296,7 @@ pub fn run(tier: Tier) -> i32 {
     let max_states = tier.pick(200_000, 2_000_000);
     let acc = par_for(cfgs.len(), 1, &deadline, |i, acc| {
         let cfg = &cfgs[i];
-        let t = effective_budget(cfg);
+        let t = nominal_budget(cfg);
         let mut alphabet = vec![0usize, 1, t / 16, t / 8, t / 4];
         alphabet.sort();
         alphabet.dedup();
@@ -296,10 +319,10 @@ pub fn run(tier: Tier) -> i32 {
     // alphabet for the smallest budgets (the verdict does not rest on the hook exposing every field
     // the spill decision may come to depend on)
     let d = tier.pick(7usize, 9);
-    let small: Vec<&SorterCfg> = cfgs.iter().filter(|c| effective_budget(c) <= 70).collect();
+    let small: Vec<&SorterCfg> = cfgs.iter().filter(|c| nominal_budget(c) <= 70).collect();
     let a2 = par_for(small.len(), 1, &deadline, |i, acc| {
         let cfg = small[i];
-        let t = effective_budget(cfg);
+        let t = nominal_budget(cfg);
         let mut alphabet = vec![0usize, 1, t / 16, t / 8, t / 4];
         alphabet.sort();
         alphabet.dedup();
